@@ -25,6 +25,7 @@ META["text"] += ' R8 also borrows C06.R4: the data of an assertion are the pairs
 META["text"] += " R4 also: the running maximum is NumPy's (np.max / np.maximum), under which a p-value that is not a number keeps the contest incomplete."
 META["text"] += ' R1 also: the data functions keep no state between calls. R8 also borrows C07.R3 (the threshold is the sample number of the n_c-th card itself).'
 META["text"] += ' R1 also: the assertion factories do not write into the options dict they are handed. R7 also: configured fields are plain attributes (no property between store and read) and Contest.from_dict copies entries verbatim.'
+META["text"] += ' (R9, N, frame condition on arguments) evaluating the assertions writes p-values, histories and flags and nothing else: every function in scope changes the objects it is handed only in the ways confirmed for it (aud.ARG_EFFECTS); references are followed through aliases, elements, attributes, loop variables, .get/.items/.values and np.asarray, resolved by the bindings that reach the use.'
 
 REL = "shangrla/core/Audit.py"
 
@@ -62,6 +63,10 @@ def inner_loops(loop):
 
 
 def run(chk):
+    from .. import aud as _aud8
+    _aud8.argument_effects(chk, 'C09.R9', 'shangrla/core/Audit.py', 'evaluating the assertions writes p-values, histories and flags and nothing else', only=lambda q: q.startswith('Assertion.'))
+    _aud8.argument_effects(chk, 'C09.R9', 'shangrla/core/Audit.py', 'evaluating the assertions writes p-values, histories and flags and nothing else', only=lambda q: q.startswith('Contest.'))
+    _aud8.argument_effects(chk, 'C09.R9', 'shangrla/core/Audit.py', 'evaluating the assertions writes p-values, histories and flags and nothing else', only=lambda q: q.startswith('Audit.'))
     idx = chk.idx
     chk.explain(
         "R1 per-assertion result stored verbatim (call asn.test.test(d) with d from the same asn.mvrs_to_data(mvr_sample,"
